@@ -151,6 +151,9 @@ class SetCurrentArea(Contract):
                 Cl("records-the-sub-box", z3.And(Vv.to_z3(f["start"], True) == old["start"], Vv.to_z3(f["end"], True) == old["end"],
                                                  Vv.to_z3(f["length"], True) == old["end"] - old["start"], f["level"] == old["level"])),
                 Cl("announced-count", npts == announced(s, old["level"])),
+                # the padded coordinate list the interpolation / plotting code reads (boundary off: global ends added on both sides)
+                Cl("coords-with-boundary-recorded", isinstance(f.get("coords_with_boundary"), Seq) and
+                   (V(f["coords_with_boundary"].to_symbolic().len()) == z3.If(f["boundary"], npts, npts + 2)) if isinstance(f.get("coords_with_boundary"), Seq) else False),
                 Cl("returns-as-many-points-as-announced", V(c.len()) == npts, prop=True),
                 Cl("as-many-weights-as-points", V(w.len()) == npts, prop=True),
                 Cl("points-inside-the-sub-box", z3.ForAll([i], z3.Implies(z3.And(i >= 0, i < npts, multi),
